@@ -18,7 +18,7 @@ VARIANTS = [
     ("interp-stripped-lookup", "C11", I, "                if field.value not in library.strings_dict:\n                    continue\n                field.value = library.strings_dict[field.value].value", "                if field.value.strip() not in library.strings_dict:\n                    continue\n                field.value = library.strings_dict[field.value.strip()].value", "fire"),
     ("interp-no-bookkeeping", "C11", I, "                resolved_fields.append(field.key)\n", "", "fire"),
     ("interp-string-object-stored", "C11", I, "field.value = library.strings_dict[field.value].value", "field.value = library.strings_dict[field.value]", "fire"),
-    ("interp-first-entry-only", "C11", I, "            if resolved_fields:\n                entry.parser_metadata[self.metadata_key()] = resolved_fields\n", "            if resolved_fields:\n                entry.parser_metadata[self.metadata_key()] = resolved_fields\n                break\n", "silent"),
+    ("interp-first-entry-only", "C11", I, "            if resolved_fields:\n                entry.parser_metadata[self.metadata_key()] = resolved_fields\n", "            if resolved_fields:\n                entry.parser_metadata[self.metadata_key()] = resolved_fields\n                break\n", "fire"),
     ("benign-interp-get", "C11", I, "                if field.value not in library.strings_dict:\n                    continue\n                field.value = library.strings_dict[field.value].value", "                s = library.strings_dict.get(field.value)\n                if s is None:\n                    continue\n                field.value = s.value", "silent"),
     ("month-returns-field", "C15", MO, "return month_field.value, f\"month-field unchanged - unknown month {v}\"", "return month_field, f\"month-field unchanged - unknown month {v}\"", "fire"),
     ("month-isdigit", "C15", MO, "        if isinstance(v, str) and v.isdecimal():\n            if 1 <= int(v) <= 12:", "        if isinstance(v, str) and v.isdigit():\n            if 1 <= int(v) <= 12:", "fire"),
